@@ -3,7 +3,8 @@ import sys, json, glob
 pid = sys.argv[1]
 prop = open(f'/tmp/wt/{pid}.prop.txt').read()
 prev = []
-for d in sorted(glob.glob(f'/verif/seeded/{pid}-m*/meta.json')):
+R3 = '--round3' in sys.argv
+for d in sorted(glob.glob(f'/verif/seeded/{pid}-[mn]*/meta.json' if R3 else f'/verif/seeded/{pid}-m*/meta.json')):
     m = json.load(open(d))
     prev.append("- " + (m.get("summary") or "")[:400])
 base = open('/verif/tools/agent_prompt.py').read()
@@ -12,5 +13,5 @@ txt = subprocess.run([sys.executable, '/verif/tools/agent_prompt.py', pid], capt
 txt = txt.replace("Your job: produce TWO different, independent, realistic source changes",
   "Other people already produced seeded bugs for this property using these mechanisms; yours must use DIFFERENT mechanisms / code locations / triggering conditions:\n" + "\n".join(prev) +
   "\n\nNote: the repository HEAD in your worktree already contains a number of small upstream 'fix:' commits (git log shows them); work on top of them.\n\nYour job: produce TWO different, independent, realistic source changes")
-txt = txt.replace("m<k>", "n<k>").replace("_out/", "_out2/")
+txt = txt.replace("m<k>", "p<k>" if R3 else "n<k>").replace("_out/", "_out3/" if R3 else "_out2/")
 print(txt)
